@@ -4,6 +4,7 @@ import (
 	"context"
 	"errors"
 	"sync/atomic"
+	"time"
 
 	"github.com/kubewharf/kubebrain/pkg/backend/coder"
 	"github.com/kubewharf/kubebrain/pkg/storage"
@@ -64,6 +65,10 @@ func (b *BatchInfo) Write() (raw []byte, rev uint64, val []byte, ok bool) {
 // are optional and must be set before the wrapper is used.
 type Wrap struct {
 	storage.KvStorage
+
+	// UncertainErr, when set, builds the error an injected unknown outcome is answered with (it must satisfy
+	// errors.Is(err, storage.ErrUncertainResult), which is all the engine contract says about such an answer)
+	UncertainErr func(*BatchInfo) error
 
 	BeforeCommit func(*BatchInfo)
 	Decide       func(*BatchInfo) Decision
@@ -302,9 +307,9 @@ func (b *wrapBatch) Commit(ctx context.Context) error {
 	case UncertainApplied:
 		info.Inner = b.inner().Commit(ctx)
 		info.Applied = info.Inner == nil
-		ret = storage.NewErrUncertainResult(errors.New("injected unknown outcome"))
+		ret = b.w.uncertain(info)
 	case UncertainNotApplied:
-		ret = storage.NewErrUncertainResult(errors.New("injected unknown outcome"))
+		ret = b.w.uncertain(info)
 	}
 	if b.eager != nil {
 		// the injected outcome keeps the operations from the engine; the caller did commit, so the engine's batch ends too
@@ -315,6 +320,35 @@ func (b *wrapBatch) Commit(ctx context.Context) error {
 		b.w.AfterCommit(info, ret)
 	}
 	return ret
+}
+
+func (w *Wrap) uncertain(info *BatchInfo) error {
+	if w.UncertainErr != nil {
+		return w.UncertainErr(info)
+	}
+	return storage.NewErrUncertainResult(errors.New("injected unknown outcome"))
+}
+
+// SlowUncertain is an unknown-outcome answer whose classification takes time: every errors.Is(err,
+// storage.ErrUncertainResult) on it deschedules the caller for Delay first. The node classifies the answer in the
+// request path and again in the sequencer, right where the revision is published and queued for repair, so the
+// delay stands for a preemption of the sequencer goroutine between those steps.
+type SlowUncertain struct {
+	Delay time.Duration
+	Calls *int64
+}
+
+func (e *SlowUncertain) Error() string { return "uncertain error: injected unknown outcome (slow)" }
+
+func (e *SlowUncertain) Is(target error) bool {
+	if target != storage.ErrUncertainResult {
+		return false
+	}
+	if e.Calls != nil {
+		atomic.AddInt64(e.Calls, 1)
+	}
+	time.Sleep(e.Delay)
+	return true
 }
 
 // DumpKV is one raw engine record.
